@@ -179,13 +179,13 @@ pub fn download(server: &mut Server, cfg: &DlCfg, ids: &mut Ids) -> (Vec<Finding
     req.token = tok;
     req.block2 = client_szx.map(|s| (0, false, s));
     let mut noise_id: u32 = (ids.mid as u32) << 12;
-    let mut noise = |server: &mut Server, n: usize, noise_id: &mut u32| {
+    let noise_path = cfg.path.clone();
+    let noise_ep = cfg.ep;
+    let noise_code = cfg.code;
+    let noise = |server: &mut Server, n: usize, noise_id: &mut u32| {
         for _ in 0..n {
             *noise_id += 1;
-            let mut q = ReqSpec::new(1, &["noise", &format!("{}", *noise_id % 4099)]);
-            q.mid = *noise_id as u16;
-            let mut small = |_r: &coap_lite::CoapRequest<CEp>| AppReply::content(b"n".to_vec());
-            let _ = server.exchange(&q.bytes(), 50_000 + *noise_id % 13, &mut small);
+            noise_request(server, *noise_id, noise_ep, &noise_path, noise_code);
         }
     };
     let ex = if cfg.overlap_first_exchange > 0 {
@@ -360,10 +360,7 @@ pub fn download(server: &mut Server, cfg: &DlCfg, ids: &mut Ids) -> (Vec<Finding
                     let mut nid: u32 = 0x4000_0000 | (r.mid as u32) << 12;
                     for _ in 0..cfg.noise_between_blocks {
                         nid += 1;
-                        let mut q = ReqSpec::new(1, &["noise", &format!("{}", nid % 4099)]);
-                        q.mid = nid as u16;
-                        let mut small = |_r: &coap_lite::CoapRequest<CEp>| AppReply::content(b"n".to_vec());
-                        let _ = server.exchange(&q.bytes(), 60_000 + nid % 13, &mut small);
+                        noise_request(server, nid, cfg.ep, &cfg.path, cfg.code);
                     }
                 }
                 let e2 = server.exchange(&r.bytes(), cfg.ep, &mut app);
@@ -434,6 +431,10 @@ pub struct UlCfg {
     /// before the upload, the client first tried the whole body in one request (no Block1) carrying
     /// this many bytes of Uri-Query; the 4.13 it got made it switch to block-wise
     pub oversized_first_try: Option<usize>,
+    /// Size1 announced on the blocks of the abandoned upload / of the new upload (RFC 7959 s. 4:
+    /// an indication of the total size); the new upload announces its true length or nothing
+    pub abandoned_size1: Option<u32>,
+    pub announce_size1: bool,
 }
 
 #[derive(Debug, Default)]
@@ -456,6 +457,7 @@ pub fn upload(server: &mut Server, cfg: &UlCfg, ids: &mut Ids) -> (Vec<Finding>,
         }};
     }
     let mut app = |_r: &coap_lite::CoapRequest<CEp>| AppReply { code: 0x44, options: vec![], payload: vec![] };
+    let size1_now: std::cell::Cell<Option<u32>> = std::cell::Cell::new(None);
     // one block exchange; returns the exchange for inspection
     let mut send_block = |server: &mut Server, body: &[u8], szx: u8, i: usize, more: bool, ids: &mut Ids| -> (ReqSpec, Exchange) {
         let s = szx_size(szx);
@@ -467,6 +469,11 @@ pub fn upload(server: &mut Server, cfg: &UlCfg, ids: &mut Ids) -> (Vec<Finding>,
         r.token = tok;
         if i >= cfg.extra_from {
             r.extra = cfg.extra.clone();
+        }
+        if let Some(v) = size1_now.get() {
+            let be = v.to_be_bytes();
+            let skip = be.iter().take_while(|b| **b == 0).count();
+            r.extra.push((60, be[skip..].to_vec()));
         }
         r.block1 = Some((i as u32, more, szx));
         r.payload = body[lo..hi].to_vec();
@@ -549,6 +556,8 @@ pub fn upload(server: &mut Server, cfg: &UlCfg, ids: &mut Ids) -> (Vec<Finding>,
     }
     // abandoned earlier upload
     if let Some((abody, aszx, ablocks)) = &cfg.abandoned {
+        // (never less than what the abandoned blocks themselves cover: a server may refuse blocks beyond an announced total)
+        size1_now.set(cfg.abandoned_size1.map(|v| v.max((*ablocks * szx_size(*aszx)) as u32 + 1)));
         for i in 0..*ablocks {
             let (r, ex) = send_block(server, abody, *aszx, i, true, ids);
             if let Step::Panic(p) = &ex.intercept_request {
@@ -564,6 +573,7 @@ pub fn upload(server: &mut Server, cfg: &UlCfg, ids: &mut Ids) -> (Vec<Finding>,
             st.abandoned_blocks += 1;
         }
     }
+    size1_now.set(if cfg.announce_size1 { Some(cfg.body.len() as u32) } else { None });
     let s = szx_size(cfg.szx);
     let n = if cfg.body.is_empty() { 1 } else { cfg.body.len().div_ceil(s) };
     for i in 0..n {
@@ -868,8 +878,103 @@ pub fn interleaved_similar_paths(rep: &mut Report, r: &mut Rng, ids: &mut Ids) {
 
 /// A transfer on a busy server: thousands of requests on other keys arrive between two block
 /// requests, and while the first request is still with the application.
+/// paths that are NOT `path` but are easily mistaken for it by a key that is anything other than
+/// the segment list itself: joined / split at '/', empty segments added, case changed, a prefix,
+/// an extension, and classic collisions of multiplicative string hashes ("Aa" / "BB")
+pub fn confusable_paths(path: &[String]) -> Vec<Vec<String>> {
+    let mut out: Vec<Vec<String>> = Vec::new();
+    if path.len() >= 2 {
+        out.push(vec![path.join("/")]);
+        out.push(path[..path.len() - 1].to_vec());
+    }
+    if path.is_empty() {
+        out.push(vec![String::new()]);
+    }
+    for (i, seg) in path.iter().enumerate() {
+        if let Some(pos) = seg.find('/') {
+            let mut p = path.to_vec();
+            p[i] = seg[..pos].to_string();
+            p.insert(i + 1, seg[pos + 1..].to_string());
+            out.push(p);
+        }
+        if seg.contains("Aa") || seg.contains("BB") {
+            let mut p = path.to_vec();
+            p[i] = if seg.contains("Aa") { seg.replacen("Aa", "BB", 1) } else { seg.replacen("BB", "Aa", 1) };
+            out.push(p);
+        }
+        let swapped: String = seg.chars().map(|c| if c.is_ascii_lowercase() { c.to_ascii_uppercase() } else { c.to_ascii_lowercase() }).collect();
+        if &swapped != seg {
+            let mut p = path.to_vec();
+            p[i] = swapped;
+            out.push(p);
+        }
+    }
+    let mut p = path.to_vec();
+    p.push(String::new());
+    out.push(p);
+    let mut p = vec![String::new()];
+    p.extend_from_slice(path);
+    out.push(p);
+    let mut p = path.to_vec();
+    p.push("x".into());
+    out.push(p);
+    out.retain(|q| q.as_slice() != path);
+    out
+}
+
+/// one request of background load.  Two out of three come from other endpoints on unrelated
+/// paths; every third comes from the observed transfer's OWN endpoint (or asks for its own path
+/// from another endpoint / with another method) on a confusable key, and leaves state of every
+/// kind there: a plain exchange, a stored Block2 preference, a cached fragmented reply, an
+/// unfinished upload.
+pub fn noise_request(server: &mut Server, id: u32, ep: u32, path: &[String], observed_code: u8) {
+    let mut small = |_r: &coap_lite::CoapRequest<CEp>| AppReply::content(b"n".to_vec());
+    if id % 3 != 0 {
+        let mut q = ReqSpec::new(1, &["noise", &format!("{}", id % 4099)]);
+        q.mid = id as u16;
+        let _ = server.exchange(&q.bytes(), 50_000 + id % 13, &mut small);
+        return;
+    }
+    let conf = confusable_paths(path);
+    let k = (id / 3) as usize;
+    let (nep, npath, code): (u32, Vec<String>, u8) = match k % 5 {
+        0 => (ep + 1, path.to_vec(), 1),                 // same path, another endpoint
+        1 => (ep, path.to_vec(), if observed_code == 4 { 1 } else { 4 }), // same path and endpoint, another method
+        _ => (ep, conf[k % conf.len()].clone(), 1),      // same endpoint, confusable path
+    };
+    let segs: Vec<&str> = npath.iter().map(|s| s.as_str()).collect();
+    let mut q = ReqSpec::new(code, &segs);
+    q.mid = id as u16;
+    q.token = vec![(id & 0xff) as u8; (k % 9).min(8)];
+    match (k / 5) % 4 {
+        0 => {
+            let _ = server.exchange(&q.bytes(), nep, &mut small);
+        }
+        1 => {
+            // states a (large) block size preference; the reply is small
+            q.block2 = Some((0, false, 6));
+            let _ = server.exchange(&q.bytes(), nep, &mut small);
+        }
+        2 => {
+            // a reply that has to be fragmented: leaves a cached body on that key
+            let mut big = |_r: &coap_lite::CoapRequest<CEp>| AppReply::content(vec![0x4e; 1500]);
+            let _ = server.exchange(&q.bytes(), nep, &mut big);
+        }
+        _ => {
+            // the first block of an upload that is never finished
+            // (on the observed path and endpoint itself the method has to differ from the observed one)
+            let ucode = if k % 5 == 1 && observed_code == 3 { 2 } else { 3 };
+            let mut u = ReqSpec::new(ucode, &segs);
+            u.mid = id as u16;
+            u.block1 = Some((0, true, 0));
+            u.payload = vec![0x55; 16];
+            let _ = server.exchange(&u.bytes(), nep, &mut small);
+        }
+    }
+}
+
 pub fn busy_server(rep: &mut Report, r: &mut Rng, ids: &mut Ids, scope: Scope, level: u32) {
-    let loads: &[(usize, usize)] = if level == 0 { &[(3, 3)] } else { &[(0, 70), (70, 0), (1100, 0), (0, 1100), (2500, 70), (5, 5)] };
+    let loads: &[(usize, usize)] = if level == 0 { &[(3, 3)] } else { &[(0, 70), (70, 0), (1100, 0), (0, 1100), (2500, 70), (5, 5), (16, 16), (1, 1), (31, 0), (0, 31)] };
     for &(between_blocks, overlap) in loads {
         rep.eval();
         let szx = r.below(4) as u8;
@@ -878,7 +983,14 @@ pub fn busy_server(rep: &mut Report, r: &mut Rng, ids: &mut Ids, scope: Scope, l
         let overhead = reply_overhead(tkl, &opts);
         let m = (overhead + 12 + 32 + szx_size(szx) + r.usize_below(200)).min(1280);
         let len = szx_size(szx) * 3 + r.usize_below(40) + 1;
-        let cfg = DlCfg { ep: 77, path: vec!["busy".into()], body: body_bytes(r.next_u64(), len), reply_opts: opts, tkl, strategy: Strategy::Early(szx), typ: 0, noise_between_blocks: between_blocks, overlap_first_exchange: overlap, ..DlCfg::base() };
+        let bpath: Vec<String> = match r.below(5) {
+            0 => vec!["busy".into()],
+            1 => vec!["fw".into(), "v2".into()],
+            2 => vec!["fw/v2".into()],
+            3 => vec![],
+            _ => vec!["Aa".into(), "x".into()],
+        };
+        let cfg = DlCfg { ep: 77, path: bpath, body: body_bytes(r.next_u64(), len), reply_opts: opts, tkl, strategy: Strategy::Early(szx), typ: 0, noise_between_blocks: between_blocks, overlap_first_exchange: overlap, ..DlCfg::base() };
         let witness = format!("busy server: budget {} body {}B client block size {}, {} requests on other keys between block requests, {} while the first request is with the application", m, len, szx_size(szx), between_blocks, overlap);
         set_case_str(&witness);
         let mut server = Server::new(m, LONG);
@@ -954,10 +1066,30 @@ pub fn run_c08(ctx: &mut Ctx) {
             3 => Strategy::Reduce { early: None, after: r.urange(1, 3), new_szx: r.below(4) as u8 },
             _ => Strategy::Reduce { early: Some(r.urange(2, 6) as u8), after: r.urange(1, 4), new_szx: r.below(3) as u8 },
         };
-        let cfg = DlCfg { ep: r.below(4) as u32, path: vec!["d".into(), format!("{}", r.below(5))], body: body_bytes(r.next_u64(), len), reply_opts, tkl, strategy, typ: r.below(2) as u8, abandon_after: None, vary_tkl: r.chance(1, 3), ..DlCfg::base() };
+        let path: Vec<String> = match r.below(24) {
+            // long segments of multi-byte characters (every alignment of the 255 / 256-byte marks), empty and odd segments
+            0 => vec!["p".repeat(r.usize_below(4)) + &"\u{e9}".repeat(r.urange(120, 200))],
+            1 => vec!["d".into(), "\u{20ac}".repeat(r.urange(80, 130)), "z".into()],
+            2 => vec![String::new(), "\u{1f601}".repeat(70)],
+            3 => vec!["Aa".into(), "BB".into()],
+            _ => vec!["d".into(), format!("{}", r.below(5))],
+        };
+        let cfg = DlCfg { ep: r.below(4) as u32, path, body: body_bytes(r.next_u64(), len), reply_opts, tkl, strategy, typ: r.below(2) as u8, abandon_after: None, vary_tkl: r.chance(1, 3), ..DlCfg::base() };
         if cfg.vary_tkl {
             rep.count("transfers_with_varying_token_length");
         }
+        // the handler measures the REQUEST against the budget as well: a budget below the request's own
+        // size (long paths) is outside the domain
+        let m = {
+            let segs: Vec<&str> = cfg.path.iter().map(|x| x.as_str()).collect();
+            let mut probe = ReqSpec::new(cfg.code, &segs);
+            probe.token = vec![0; 8];
+            probe.block2 = Some((4000, false, 6));
+            if probe.overhead() > 40 {
+                rep.count("transfers_on_long_paths");
+            }
+            m.max(probe.overhead() + 12 + 32).min(1280)
+        };
         dl_one(rep, m, &cfg, &mut ids, Scope::Transfer);
     }
     // a transfer abandoned midway, then a fresh one for the same key that starts WITHOUT a Block2
@@ -1115,7 +1247,7 @@ pub fn run_c09(ctx: &mut Ctx) {
                         2 => Some((body_bytes(998, 2 * s), szx, 1)),                 // shorter
                         _ => Some((body_bytes(997, 700), if szx > 0 { szx - 1 } else { 1 }, 1 + len % 5)), // other block size
                     };
-                    let cfg = UlCfg { ep: 3, path: vec!["up".into()], body, szx, dups: vec![1 + (len % 3) as u8, 1, 2], tkl: len % 9, abandoned, extra: vec![], code: 3, extra_from: 0, oversized_first_try: None };
+                    let cfg = UlCfg { ep: 3, path: vec!["up".into()], body, szx, dups: vec![1 + (len % 3) as u8, 1, 2], tkl: len % 9, abandoned, extra: vec![], code: 3, extra_from: 0, oversized_first_try: None, abandoned_size1: None, announce_size1: false };
                     let mut probe = ReqSpec::new(3, &["up"]);
                     probe.block1 = Some((70, true, szx));
                     probe.token = vec![0; cfg.tkl];
@@ -1165,14 +1297,14 @@ pub fn run_c09(ctx: &mut Ctx) {
             vec![]
         };
         let path: Vec<String> = (0..r.urange(1, 3)).map(|i| format!("p{}", i)).collect();
-        let cfg = UlCfg { ep: r.below(3) as u32, path, body: new_body, szx, dups: (0..3).map(|_| r.urange(1, 3) as u8).collect(), tkl: r.usize_below(9), abandoned, extra, code: *r.pick(&[2u8, 3, 5, 6]), extra_from: 0, oversized_first_try: if r.chance(1, 4) { Some(*r.pick(&[0usize, 20, 60, 116, 200])) } else { None } };
+        let cfg = UlCfg { ep: r.below(3) as u32, path, body: new_body, szx, dups: (0..3).map(|_| r.urange(1, 3) as u8).collect(), tkl: r.usize_below(9), abandoned, extra, code: *r.pick(&[2u8, 3, 5, 6]), extra_from: 0, oversized_first_try: if r.chance(1, 4) { Some(*r.pick(&[0usize, 20, 60, 116, 200])) } else { None }, abandoned_size1: if r.chance(1, 3) { Some(match r.below(4) { 0 => len as u32 + 1 + r.below(4000) as u32, 1 => len as u32, 2 => (len as u32).saturating_sub(1 + r.below(40) as u32), _ => r.below(6000) as u32 }) } else { None }, announce_size1: r.chance(1, 5) };
         let pathrefs: Vec<&str> = cfg.path.iter().map(|s| s.as_str()).collect();
         let mut probe = ReqSpec::new(cfg.code, &pathrefs);
         probe.block1 = Some((400, true, szx));
         probe.token = vec![0; cfg.tkl];
         probe.extra = cfg.extra.clone();
         let smax = s.max(cfg.abandoned.as_ref().map(|a| szx_size(a.1)).unwrap_or(0));
-        let m = admitting_budget(&mut r, probe.overhead(), smax);
+        let m = admitting_budget(&mut r, probe.overhead() + 6, smax);
         if m > 1280 {
             continue;
         }
@@ -1368,7 +1500,7 @@ pub fn run_c10(ctx: &mut Ctx) {
         // property's configuration: clients never raise the size, so a shrinking server ends this
         // transfer early (the acknowledgement itself is what C10 judges)
         let extra_from = if r.bool() { 0 } else { r.urange(1, 3) };
-        let cfg = UlCfg { ep: 4, path, body: body_bytes(r.next_u64(), len), szx, dups: vec![1], tkl, abandoned: None, extra, code: 3, extra_from, oversized_first_try: None };
+        let cfg = UlCfg { ep: 4, path, body: body_bytes(r.next_u64(), len), szx, dups: vec![1], tkl, abandoned: None, extra, code: 3, extra_from, oversized_first_try: None, abandoned_size1: None, announce_size1: false };
         if extra_from > 0 && !cfg.extra.is_empty() {
             rep.count("uploads_whose_later_blocks_carry_more_options");
         }
